@@ -28,7 +28,7 @@ def mc(ctx, T, sfx):
     ctx.require_coverage(r, CORE + ["DoArrive", "DoHandOff", "DoFailStart", "DoFailDelay", "DoFailInitiate",
                                     "DoFailWaiter", "DoFailNext"], "MC_Core")
     # larger bounds; block arithmetic over many protocols; two members (any interleaving); members with a prompt scheduler
-    runs = [("MC_Blocks", 20000), ("MC_Pair", 10000), ("MC_Prompt", 5000)]
+    runs = [("MC_Blocks", 20000), ("MC_Pair", 10000), ("MC_Prompt", 5000), ("MC_Window", 20000)]
     if T:
         runs = [("MC_Core", 100000)] + runs
     for cfg, floor in runs:
@@ -37,7 +37,11 @@ def mc(ctx, T, sfx):
             ctx.broken("%s explored only %d states" % (cfg, r.distinct))
     if T:
         r = ctx.tlc(SPEC, "SyncMachine", cfg="MC_Live", label="MC_Live", timeout=2400)
-    # 2. documented residual behaviour: a buffered message can cross a state boundary
+    # 2a. the hazard that DelayBlocks removes is reachable in the model (so DelayProtects is not vacuous)
+    te = ctx.tlc(SPEC, "SyncMachine", cfg="MC_TooEarly", label="MC_TooEarly", expect=("violation",))
+    if te.violated != "NeverTooEarly":
+        ctx.broken("MC_TooEarly: expected a NeverTooEarly counterexample, got %s" % te.violated)
+    # 2b. documented residual behaviour: a buffered message can cross a state boundary
     co = ctx.tlc(SPEC, "SyncMachine", cfg="MC_CarryOver", label="MC_CarryOver", expect=("violation",))
     if co.violated != "NoCarryOver":
         ctx.broken("MC_CarryOver: expected a NoCarryOver counterexample, got %s" % co.violated)
@@ -88,6 +92,11 @@ def run(ctx):
     bg_blocks = Bg(blocks, ctx)
     try:
         return pipeline(ctx, T, bg_mc, bg_blocks)
+    except BaseException:
+        # do not leave background TLC / go test processes behind
+        import subprocess
+        subprocess.run(["pkill", "-f", ctx.scratch], stderr=subprocess.DEVNULL)
+        raise
     finally:
         ctx.subdir = orig
 
